@@ -274,6 +274,12 @@ func c14Specs() map[string]*c14Spec {
 			{Call: &Ref{Task: "flaky", Vars: [][2]string{{"CODE", "7"}}}}, {Call: &Ref{Task: "flaky", Vars: [][2]string{{"CODE", "0"}}}}, P()}},
 		{Name: "sub", Cmds: []C{{Defer: true, Extra: "{{.X}}"}, P()}},
 		{Name: "flaky", Cmds: []C{dfr(), {ExitVar: "CODE"}, P()}}}}}
+	m["once-with-defer-two-callers-and-failing-sibling"] = &c14Spec{code: -1, pg: &Prog{Tasks: []*T{
+		{Name: "root", Deps: []Ref{D("a"), D("b"), D("failer")}},
+		{Name: "a", Cmds: []C{dfr(), CallS("s", "="), P()}},
+		{Name: "b", Cmds: []C{dfr(), CallS("s", "="), P()}},
+		{Name: "s", Run: "once", Cmds: []C{dfr(), P(), P()}},
+		{Name: "failer", Cmds: []C{P(), F()}}}}}
 	m["cancelled-by-sibling"] = &c14Spec{code: -1, pg: &Prog{Tasks: []*T{
 		{Name: "root", Deps: []Ref{D("main"), D("failer")}},
 		{Name: "main", Cmds: []C{dfr(), P(), dfr(), P(), P()}},
@@ -292,6 +298,9 @@ func c14Units(tier string) []*Unit {
 	for _, name := range names {
 		sp := specs[name]
 		bound, shards := boundFor(tier, len(sp.pg.Tasks), 0)
+		if tier != "thorough" && len(sp.pg.Tasks) >= 5 {
+			bound, shards = 1, 1
+		}
 		sc := scen(name+"/cinf", sp.pg, vlab.Options{}, "root")
 		us = append(us, &Unit{Name: sc.Name, Sc: sc, Bound: bound, Prune: true, Check: both(c14Check(sp.pg, sp.code), c02Check(sp.pg)), Weight: len(sp.pg.Tasks), Shards: shards})
 		if tier == "thorough" || name == "defer-task-call" {
